@@ -20,14 +20,17 @@
 (*   (b) ONE SHARE PER ASSIGNMENT. Whenever the daemon handles a           *)
 (*   request_signature notification or a start-up replay for signing sid   *)
 (*   and its query succeeds: if the current attempt of sid assigns this    *)
-(*   member, holds no share of it yet, the private pair is in the store    *)
-(*   and no share for that attempt is already waiting in the queue, it     *)
-(*   queues exactly one MsgSubmitSignature with the member's correct share  *)
-(*   (the chain's SubmitSignature accepts it while the attempt is open);   *)
-(*   in every other case - not assigned, attempt closed or pruned, unknown *)
-(*   id, pair not held, share already queued or already on chain - it      *)
-(*   queues nothing. So the queue never holds two shares for one attempt,  *)
-(*   whatever the order, lateness or duplication of notifications.         *)
+(*   member, the chain holds no share of it yet, the private pair is in    *)
+(*   the store and no share for that attempt is waiting in the queue, then *)
+(*   - the first time - it queues exactly one MsgSubmitSignature with the  *)
+(*   member's correct share (the chain's SubmitSignature accepts it while  *)
+(*   the attempt is open); if a share for that attempt had been queued     *)
+(*   before and was lost (see (d)) it may queue it again.  In every other  *)
+(*   case - not assigned, attempt closed or pruned, unknown id, pair not   *)
+(*   held, share already queued or already on chain - it queues nothing.   *)
+(*   So the queue never holds two shares for one attempt and never a share *)
+(*   the chain already has, whatever the order, lateness or duplication of *)
+(*   notifications.                                                        *)
 (*   (c) TOP-UP. An interval step whose queries succeed and which sees     *)
 (*   c < 2*MinDE pairs queued on chain queues exactly one MsgSubmitDEs     *)
 (*   with exactly 2*MinDE - c pairs; with c >= 2*MinDE nothing. After      *)
@@ -83,12 +86,13 @@ VARIABLES
     \* ---- ghosts ----
     usedFor,  \* token -> set of (sid, attempt) a share was made for with it
     everSub,  \* tokens ever put into a MsgSubmitDEs
+    sentKeys, \* (sid, attempt) for which a share was queued at some time
     calm,     \* the schedule has been calm so far (see (c))
     out       \* outcome of the last Land: "ok" | "rej" | "-"
 
 chainVars  == <<cq, sg, pendN, evDE>>
 daemonVars == <<priv, mq, cnt, nextTok>>
-ghostVars  == <<usedFor, everSub, calm>>
+ghostVars  == <<usedFor, everSub, sentKeys, calm>>
 vars == <<par, chainVars, daemonVars, ghostVars, out>>
 
 NoSig == [a |-> 0, open |-> FALSE, me |-> FALSE, de |-> 0, signed |-> FALSE]
@@ -112,27 +116,32 @@ TypeOK ==
     /\ \A i \in 1..Len(mq) :
           \/ mq[i].k = "sig" /\ mq[i].sid \in Sigs /\ mq[i].a \in 1..MaxAtt /\ mq[i].de \in Toks /\ mq[i].good \in BOOLEAN
           \/ mq[i].k = "des" /\ mq[i].des \in Seq(Toks) /\ mq[i].pre \in BOOLEAN
-    /\ usedFor \in [Toks -> SUBSET Keys] /\ everSub \subseteq Toks /\ calm \in BOOLEAN
+    /\ usedFor \in [Toks -> SUBSET Keys] /\ everSub \subseteq Toks /\ sentKeys \subseteq Keys /\ calm \in BOOLEAN
     /\ out \in {"-", "ok", "rej"}
 
 Init0 ==
     /\ cq = <<>> /\ sg = [s \in Sigs |-> NoSig] /\ pendN = 0 /\ evDE = {}
     /\ priv = {} /\ mq = <<>> /\ cnt = 0 /\ nextTok = 0
-    /\ usedFor = [t \in Toks |-> {}] /\ everSub = {} /\ calm = TRUE /\ out = "-"
+    /\ usedFor = [t \in Toks |-> {}] /\ everSub = {} /\ sentKeys = {} /\ calm = TRUE /\ out = "-"
 
 -----------------------------------------------------------------------------
 (* The signing worker: handleSigning(sid), one call per notification / replay *)
 
 \* q: "ok" | "fail" - the QuerySigning call.  The code gives up on a failed query (logs and returns).
+\* `due`: the attempt waits for this member's share, the private pair is held, no share for it is queued.
+\* The first time this holds the share MUST be queued.  If a share for the attempt was queued before and is gone
+\* (the sender gave up on it, its transaction was refused, the process restarted) the worker MAY queue it again:
+\* that is where the code gives up, a later notification may or may not repair it.
 HandleSigning(sid, q) ==
     LET s == IF sid \in Sigs THEN sg[sid] ELSE NoSig
         due == /\ q = "ok" /\ s.a > 0 /\ s.open /\ s.me /\ ~s.signed
                /\ s.de \in priv
                /\ ~SigInQueue(sid, s.a)
-    IN  /\ IF due
-           THEN /\ mq' = Append(mq, SigMsg(sid, s.a, s.de))
+        send == /\ mq' = Append(mq, SigMsg(sid, s.a, s.de))
                 /\ usedFor' = [usedFor EXCEPT ![s.de] = @ \cup {<<sid, s.a>>}]
-           ELSE UNCHANGED <<mq, usedFor>>
+                /\ sentKeys' = sentKeys \cup {<<sid, s.a>>}
+        skip == UNCHANGED <<mq, usedFor, sentKeys>>
+    IN  /\ IF due THEN (IF <<sid, s.a>> \in sentKeys THEN send \/ skip ELSE send) ELSE skip
         /\ out' = "-"
         /\ UNCHANGED <<par, chainVars, priv, cnt, nextTok, everSub, calm>>
 
@@ -160,7 +169,7 @@ Tick(qde, qmem) ==
             /\ calm' = (calm /\ InflightDE = 0 /\ pendN = 0)
        ELSE UNCHANGED <<priv, mq, nextTok, everSub, cnt, calm>>
     /\ out' = "-"
-    /\ UNCHANGED <<par, chainVars, usedFor>>
+    /\ UNCHANGED <<par, chainVars, usedFor, sentKeys>>
 
 \* one assignment notification (dup: a notification that was already handled is delivered again)
 AssignEv(dup, qmem) ==
@@ -171,7 +180,7 @@ AssignEv(dup, qmem) ==
        ELSE UNCHANGED <<priv, mq, nextTok, everSub>> /\ cnt' = cnt + 1
     /\ calm' = (calm /\ ~dup)
     /\ out' = "-"
-    /\ UNCHANGED <<par, cq, sg, evDE, usedFor>>
+    /\ UNCHANGED <<par, cq, sg, evDE, usedFor, sentKeys>>
 
 \* deleteDE for every pair of a submit_signature / de_deleted event of this member
 DeleteDE(D) ==
